@@ -185,17 +185,20 @@ func UpdatePathAttrs4ByteAs(logger *slog.Logger, msg *bgp.BGPUpdate) {
 
 	newParams := make([]bgp.AsPathParamInterface, 0, len(asAttr.Value))
 	for _, param := range asParams {
-		if keepNum-param.ASLen() >= 0 {
+		l := param.ASLen()
+		if keepNum == 0 && l > 0 {
+			// from here on the path is what AS4_PATH stands for. Segments that
+			// do not count (confederation) are kept up to this point, also
+			// when nothing else is: AS4_PATH never carries them.
+			break
+		}
+		if keepNum-l >= 0 {
 			newParams = append(newParams, param)
-			keepNum -= param.ASLen()
-		} else if keepNum > 0 {
+			keepNum -= l
+		} else {
 			// only SEQ param reaches here
 			newParams = append(newParams, bgp.NewAs4PathParam(param.GetType(), param.GetAS()[:keepNum]))
 			keepNum = 0
-		}
-
-		if keepNum <= 0 {
-			break
 		}
 	}
 
